@@ -436,6 +436,16 @@ func (st *Runtime) executeYieldBlock(block *BlockNode, blockParam, yieldParam *B
 	return returnValue
 }
 
+// checkArguments reports an argument of the yield that names a parameter without giving it a value: an error of
+// the yield (and its line), not of the block it yields.
+func (node *YieldNode) checkArguments() {
+	for i := 0; i < len(node.Parameters.List); i++ {
+		if p := &node.Parameters.List[i]; p.Expression == nil {
+			node.errorf("missing name for block parameter '%s'", p.Identifier)
+		}
+	}
+}
+
 func (st *Runtime) executeList(list *ListNode) (returnValue reflect.Value) {
 	inNewScope := false // to use just one scope for multiple actions with variable declarations
 
@@ -585,6 +595,7 @@ func (st *Runtime) executeList(list *ListNode) (returnValue reflect.Value) {
 				if has == false || block == nil {
 					node.errorf("unresolved block %q!!", node.Name)
 				}
+				node.checkArguments()
 				returnValue = lastReturn(returnValue, st.executeYieldBlock(block, block.Parameters, node.Parameters, node.Expression, node.Content))
 			}
 		case NodeBlock:
